@@ -129,14 +129,14 @@ Lemma le32_bound : forall a b c d, a < 256 -> b < 256 -> c < 256 -> d < 256 -> l
 Proof. intros a b c d Ha Hb Hc Hd. unfold le32. lia. Qed.
 
 (* what a successful readMsg guarantees: the type is whitelisted, the declared size is within the limit, the
-   buffer is exactly as long as the body, and the body was fully present *)
-Lemma read_msg_ok_inv : forall allowed vt buf stream m buf' rest,
-  read_msg allowed vt buf stream = Ok (m, buf', rest) ->
+   buffer is exactly as long as the body, and the body was fully present — whatever a short read ends in *)
+Lemma read_msg_e_ok_inv : forall short allowed vt buf stream m buf' rest,
+  read_msg_e short allowed vt buf stream = Ok (m, buf', rest) ->
   mem_N (m_tp m) allowed = true /\ hb_len buf' <= size_limit /\ hb_len buf' <= hb_cap buf' /\
   blen stream = header_size + hb_len buf' + blen rest /\
   hb_cap buf' <= N.max (hb_cap buf) (hb_len buf + header_size + size_limit).
 Proof.
-  intros allowed vt buf stream m buf' rest. unfold read_msg.
+  intros short allowed vt buf stream m buf' rest. unfold read_msg_e.
   rewrite reslice_grow_ok. cbn [bind].
   destruct (N.ltb_spec (blen stream) header_size) as [Hs|Hs]; [discriminate|].
   unfold header_size in *.
@@ -174,9 +174,17 @@ Proof.
   - intros H. eapply Hfin; [apply Hcap|apply (Hcap2 (hb_cap buf) (hb_len buf))|reflexivity|exact H].
 Qed.
 
-Theorem read_msg_no_panic : forall allowed vt buf stream, no_panic (read_msg allowed vt buf stream).
+Lemma read_msg_ok_inv : forall allowed vt buf stream m buf' rest,
+  read_msg allowed vt buf stream = Ok (m, buf', rest) ->
+  mem_N (m_tp m) allowed = true /\ hb_len buf' <= size_limit /\ hb_len buf' <= hb_cap buf' /\
+  blen stream = header_size + hb_len buf' + blen rest /\
+  hb_cap buf' <= N.max (hb_cap buf) (hb_len buf + header_size + size_limit).
+Proof. intros allowed vt buf stream m buf' rest. apply read_msg_e_ok_inv. Qed.
+
+Theorem read_msg_e_no_panic : forall short allowed vt buf stream,
+  no_panic (read_msg_e short allowed vt buf stream).
 Proof.
-  intros allowed vt buf stream. unfold read_msg.
+  intros short allowed vt buf stream. unfold read_msg_e.
   rewrite reslice_grow_ok. cbn [bind].
   destruct (N.ltb_spec (blen stream) header_size) as [Hs|Hs]; [apply no_panic_err|].
   unfold header_size in *.
@@ -198,49 +206,94 @@ Proof.
   destruct ((tp =? msg_cred) || (tp =? msg_ack) || (tp =? msg_proto)); [destruct (vt tp _)|]; auto with c11.
 Qed.
 
+Theorem read_msg_no_panic : forall allowed vt buf stream, no_panic (read_msg allowed vt buf stream).
+Proof. intros allowed vt buf stream. apply read_msg_e_no_panic. Qed.
+
 Lemma mem_single : forall x y, mem_N x [y] = true -> x = y.
 Proof. intros x y H. cbn in H. rewrite orb_false_r in H. apply N.eqb_eq. exact H. Qed.
 
-Theorem incoming_handshake_no_panic : forall env buf stream, no_panic (incoming_handshake env buf stream).
+(* reporting an error to the peer neither turns it into a crash nor into a success *)
+Lemma no_panic_or_report : forall A p (x : outcome A), no_panic x -> no_panic (or_report p x).
 Proof.
-  intros env buf stream. unfold incoming_handshake.
-  apply no_panic_bind; [apply read_msg_no_panic|]. intros [[m1 buf1] rest1] H1.
-  apply read_msg_ok_inv in H1. destruct H1 as [Hm1 _]. apply mem_single in Hm1.
+  intros A p x Hx. destruct x as [v|e|w]; cbn [or_report]; [apply no_panic_ok| |exact Hx].
+  destruct ((e =? E_unexpected) || (e =? E_blocked)); [apply no_panic_err|].
+  destruct (p_write p); apply no_panic_err.
+Qed.
+Lemma or_report_ok_inv : forall A p (x : outcome A) v, or_report p x = Ok v -> x = Ok v.
+Proof.
+  intros A p x v H. destruct x as [v'|e|w]; cbn [or_report] in H; [exact H| |discriminate H].
+  destruct ((e =? E_unexpected) || (e =? E_blocked)); [discriminate H|].
+  destruct (p_write p); discriminate H.
+Qed.
+Lemma no_panic_conn_write : forall p, no_panic (conn_write p).
+Proof. intros p. unfold conn_write. destruct (p_write p); auto with c11. Qed.
+Lemma no_panic_if_ok : forall (b : bool) e, no_panic (if b then Ok tt else @Err unit e).
+Proof. intros b e. destruct b; auto with c11. Qed.
+Create HintDb c11hs.
+#[export] Hint Resolve no_panic_or_report no_panic_conn_write no_panic_if_ok read_msg_e_no_panic : c11hs.
+
+(* the four conversations, against EVERY peer behaviour: any bytes, then EOF or silence; writes that succeed,
+   fail or park *)
+Theorem incoming_handshake_p_no_panic : forall env p buf stream, no_panic (incoming_handshake_p env p buf stream).
+Proof.
+  intros env p buf stream. unfold incoming_handshake_p.
+  apply no_panic_bind; [auto with c11 c11hs|]. intros [[m1 buf1] rest1] H1.
+  apply or_report_ok_inv, read_msg_e_ok_inv in H1. destruct H1 as [Hm1 _]. apply mem_single in Hm1.
   unfold has_cred. rewrite Hm1, N.eqb_refl. cbn [need bind].
-  destruct (e_cred_ok env); cbn [negb]; [|apply no_panic_err].
-  destruct (e_write_ok env); cbn [negb]; [|apply no_panic_err].
-  apply no_panic_bind; [apply read_msg_no_panic|]. intros [[m2 buf2] rest2] H2.
-  apply read_msg_ok_inv in H2. destruct H2 as [Hm2 _]. apply mem_single in Hm2.
+  apply no_panic_bind; [auto with c11 c11hs|]. intros _ _.
+  apply no_panic_bind; [auto with c11 c11hs|]. intros _ _.
+  apply no_panic_bind; [auto with c11 c11hs|]. intros [[m2 buf2] rest2] H2.
+  apply or_report_ok_inv, read_msg_e_ok_inv in H2. destruct H2 as [Hm2 _]. apply mem_single in Hm2.
   unfold has_ack. rewrite Hm2, N.eqb_refl. cbn [need bind].
-  destruct (e_ack_null env _); cbn [negb]; auto with c11.
+  destruct (e_ack_null env _); cbn [negb]; auto with c11 c11hs.
 Qed.
 
-Theorem outgoing_handshake_no_panic : forall env buf stream, no_panic (outgoing_handshake env buf stream).
+Theorem outgoing_handshake_p_no_panic : forall env p buf stream, no_panic (outgoing_handshake_p env p buf stream).
 Proof.
-  intros env buf stream. unfold outgoing_handshake.
-  destruct (e_write_ok env); cbn [negb]; [|apply no_panic_err].
-  apply no_panic_bind; [apply read_msg_no_panic|]. intros [[m1 buf1] rest1] H1.
-  apply read_msg_ok_inv in H1. destruct H1 as [Hm1 _].
+  intros env p buf stream. unfold outgoing_handshake_p.
+  apply no_panic_bind; [auto with c11 c11hs|]. intros _ _.
+  apply no_panic_bind; [auto with c11 c11hs|]. intros [[m1 buf1] rest1] H1.
+  apply or_report_ok_inv, read_msg_e_ok_inv in H1. destruct H1 as [Hm1 _].
   cbn [mem_N] in Hm1. rewrite orb_false_r in Hm1.
   unfold has_ack, has_cred. destruct (N.eqb_spec (m_tp m1) msg_ack) as [Ha|Ha]; [apply no_panic_err|].
   cbn [orb] in Hm1. rewrite Hm1. cbn [need bind].
-  destruct (e_cred_ok env); cbn [negb]; [|apply no_panic_err].
-  apply no_panic_bind; [apply read_msg_no_panic|]. intros [[m2 buf2] rest2] H2.
-  apply read_msg_ok_inv in H2. destruct H2 as [Hm2 _]. apply mem_single in Hm2.
+  apply no_panic_bind; [auto with c11 c11hs|]. intros _ _.
+  apply no_panic_bind; [auto with c11 c11hs|]. intros _ _.
+  apply no_panic_bind; [auto with c11 c11hs|]. intros [[m2 buf2] rest2] H2.
+  apply or_report_ok_inv, read_msg_e_ok_inv in H2. destruct H2 as [Hm2 _]. apply mem_single in Hm2.
   rewrite Hm2, N.eqb_refl. cbn [need bind].
-  destruct (e_ack_null env _); cbn [negb]; auto with c11.
+  destruct (e_ack_null env _); cbn [negb]; auto with c11 c11hs.
 Qed.
 
+Theorem incoming_proto_handshake_p_no_panic : forall env p buf stream,
+  no_panic (incoming_proto_handshake_p env p buf stream).
+Proof.
+  intros env p buf stream. unfold incoming_proto_handshake_p.
+  apply no_panic_bind; [auto with c11 c11hs|]. intros [[m1 buf1] rest1] H1.
+  apply or_report_ok_inv, read_msg_e_ok_inv in H1. destruct H1 as [Hm1 _]. apply mem_single in Hm1.
+  unfold has_proto. rewrite Hm1, N.eqb_refl. cbn [need bind].
+  apply no_panic_bind; [auto with c11 c11hs|]. intros _ _. auto with c11 c11hs.
+Qed.
+
+Theorem outgoing_proto_handshake_p_no_panic : forall env p buf stream,
+  no_panic (outgoing_proto_handshake_p env p buf stream).
+Proof.
+  intros env p buf stream. unfold outgoing_proto_handshake_p.
+  apply no_panic_bind; [auto with c11 c11hs|]. intros _ _.
+  apply no_panic_bind; [auto with c11 c11hs|]. intros [[m1 buf1] rest1] _.
+  destruct (has_ack m1); [destruct (e_ack_null env _)|destruct (has_proto m1)]; auto with c11 c11hs.
+Qed.
+
+Theorem incoming_handshake_no_panic : forall env buf stream, no_panic (incoming_handshake env buf stream).
+Proof. intros env buf stream. apply incoming_handshake_p_no_panic. Qed.
+Theorem outgoing_handshake_no_panic : forall env buf stream, no_panic (outgoing_handshake env buf stream).
+Proof. intros env buf stream. apply outgoing_handshake_p_no_panic. Qed.
 Theorem incoming_proto_handshake_no_panic : forall env buf stream,
   no_panic (incoming_proto_handshake env buf stream).
-Proof.
-  intros env buf stream. unfold incoming_proto_handshake.
-  apply no_panic_bind; [apply read_msg_no_panic|]. intros [[m1 buf1] rest1] H1.
-  apply read_msg_ok_inv in H1. destruct H1 as [Hm1 _]. apply mem_single in Hm1.
-  unfold has_proto. rewrite Hm1, N.eqb_refl. cbn [need bind].
-  destruct (e_proto_allowed env _); cbn [negb]; [|apply no_panic_err].
-  destruct (e_write_ok env); cbn [negb]; auto with c11.
-Qed.
+Proof. intros env buf stream. apply incoming_proto_handshake_p_no_panic. Qed.
+Theorem outgoing_proto_handshake_no_panic : forall env buf stream,
+  no_panic (outgoing_proto_handshake env buf stream).
+Proof. intros env buf stream. apply outgoing_proto_handshake_p_no_panic. Qed.
 
 (* size bound: whatever the peer declares, the frame buffer never grows beyond max(previous cap, 5 + limit) *)
 Theorem read_msg_buffer_bound : forall allowed vt buf stream m buf' rest,
@@ -249,4 +302,192 @@ Theorem read_msg_buffer_bound : forall allowed vt buf stream m buf' rest,
 Proof.
   intros allowed vt buf stream m buf' rest H.
   pose proof (read_msg_ok_inv _ _ _ _ _ _ _ H) as [_ [Hl [_ [_ Hc]]]]. split; assumption.
+Qed.
+
+(* ------------------------------------------------------------------------------------------------ *)
+(* (3b) the exported entry points under a ctx that is eventually done: never a hang, whatever the peer sends,
+   wherever it stalls, and whatever conn.Close() does to a parked Read/Write                           *)
+
+Lemma hs_inner_no_panic : forall which env p buf stream, no_panic (hs_inner which env p buf stream).
+Proof.
+  intros which env p buf stream. unfold hs_inner.
+  destruct (which =? 0); [apply incoming_handshake_p_no_panic|].
+  destruct (which =? 1); [apply outgoing_handshake_p_no_panic|].
+  destruct (which =? 2); [apply incoming_proto_handshake_p_no_panic|apply outgoing_proto_handshake_p_no_panic].
+Qed.
+
+Lemma entry_with_ctx_spec : forall k inner, no_panic inner -> spec_C11 (class_of_run (entry_with_ctx k inner)) = true.
+Proof.
+  intros k inner Hn. unfold entry_with_ctx. destruct (is_blocked inner); [reflexivity|].
+  cbn [class_of_run]. apply no_panic_spec. exact Hn.
+Qed.
+
+(* every exported entry point returns nil or an error: no crash and no hang *)
+Theorem hs_entry_returns : forall which k env p buf stream,
+  spec_C11 (class_of_run (hs_entry which k env p buf stream)) = true.
+Proof. intros. unfold hs_entry. apply entry_with_ctx_spec, hs_inner_no_panic. Qed.
+
+Theorem hs_entry_never_hangs : forall which k env p buf stream, hs_entry which k env p buf stream <> Hung.
+Proof. intros which k env p buf stream. unfold hs_entry, entry_with_ctx. destruct (is_blocked _); discriminate. Qed.
+
+(* ... and what it returns does not depend on the kind of connection *)
+Theorem hs_entry_kind_independent : forall which k1 k2 env p buf stream,
+  hs_entry which k1 env p buf stream = hs_entry which k2 env p buf stream.
+Proof. reflexivity. Qed.
+
+(* the ctx error is returned when the conversation is parked on the silent peer; otherwise the conversation's own
+   result is returned unchanged *)
+Theorem hs_entry_result : forall which k env p buf stream,
+  (hs_inner which env p buf stream = Err E_blocked ->
+     hs_entry which k env p buf stream = Returned (Err E_deadline)) /\
+  (hs_inner which env p buf stream <> Err E_blocked ->
+     hs_entry which k env p buf stream = Returned (hs_inner which env p buf stream)).
+Proof.
+  intros which k env p buf stream. unfold hs_entry, entry_with_ctx. split.
+  - intros H. rewrite H. reflexivity.
+  - intros H. destruct (hs_inner which env p buf stream) as [v|e|w]; cbn [is_blocked]; try reflexivity.
+    destruct (N.eqb_spec e E_blocked) as [He|He]; [subst e; contradiction|reflexivity].
+Qed.
+
+(* "parked, or the same as if the peer had closed": a relation preserved by every construct of the model *)
+Definition parked_or {A} (o1 o2 : outcome A) : Prop := o1 = Err E_blocked \/ o1 = o2.
+
+Lemma parked_or_refl : forall A (o : outcome A), parked_or o o.
+Proof. intros A o. right. reflexivity. Qed.
+Lemma parked_or_bind : forall A B (x1 x2 : outcome A) (f1 f2 : A -> outcome B),
+  parked_or x1 x2 -> (forall v, parked_or (f1 v) (f2 v)) -> parked_or (bind x1 f1) (bind x2 f2).
+Proof.
+  intros A B x1 x2 f1 f2 [Hx|Hx] Hf.
+  - left. rewrite Hx. reflexivity.
+  - subst x2. destruct x1 as [v|e|w]; cbn [bind]; [apply Hf|right; reflexivity|right; reflexivity].
+Qed.
+Lemma parked_or_report : forall A p1 p2 (x1 x2 : outcome A),
+  p_write p1 = p_write p2 -> parked_or x1 x2 -> parked_or (or_report p1 x1) (or_report p2 x2).
+Proof.
+  intros A p1 p2 x1 x2 Hw [Hx|Hx].
+  - left. rewrite Hx. reflexivity.
+  - subst x2. right. unfold or_report. rewrite Hw. reflexivity.
+Qed.
+Lemma parked_or_if : forall A (c : bool) (a1 a2 b1 b2 : outcome A),
+  parked_or a1 a2 -> parked_or b1 b2 -> parked_or (if c then a1 else b1) (if c then a2 else b2).
+Proof. intros A c a1 a2 b1 b2 Ha Hb. destruct c; assumption. Qed.
+
+Lemma read_msg_e_parked_or : forall allowed vt buf stream,
+  parked_or (read_msg_e E_blocked allowed vt buf stream) (read_msg_e E_eof allowed vt buf stream).
+Proof.
+  intros allowed vt buf stream. unfold read_msg_e.
+  apply parked_or_bind; [apply parked_or_refl|]. intros buf1.
+  apply parked_or_if; [left; reflexivity|].
+  apply parked_or_bind; [apply parked_or_refl|]. intros tp.
+  apply parked_or_if; [apply parked_or_refl|].
+  apply parked_or_bind; [apply parked_or_refl|]. intros b1.
+  apply parked_or_bind; [apply parked_or_refl|]. intros b2.
+  apply parked_or_bind; [apply parked_or_refl|]. intros b3.
+  apply parked_or_bind; [apply parked_or_refl|]. intros b4.
+  cbv zeta.
+  apply parked_or_if; [apply parked_or_refl|].
+  apply parked_or_bind; [apply parked_or_refl|]. intros buf2.
+  apply parked_or_bind; [apply parked_or_refl|]. intros rest.
+  apply parked_or_if; [left; reflexivity|]. apply parked_or_refl.
+Qed.
+
+(* Prefix safety of stalling.  Against a peer that sends [stream] and then goes SILENT, each conversation either
+   is parked (and the entry point answers with the ctx error), or ends exactly as it would have, had the peer sent
+   the same bytes and CLOSED: silence can never turn a rejected stream into an accepted one, or the reverse. *)
+Theorem hs_inner_stall_or_eof : forall which env w buf stream,
+  parked_or (hs_inner which env (mkPeer false w) buf stream) (hs_inner which env (mkPeer true w) buf stream).
+Proof.
+  intros which env w buf stream.
+  assert (Hw : p_write (mkPeer false w) = p_write (mkPeer true w)) by reflexivity.
+  assert (Hr : forall allowed b s,
+             parked_or (or_report (mkPeer false w) (read_msg_e (short_read (mkPeer false w)) allowed (e_vt_ok env) b s))
+                       (or_report (mkPeer true w) (read_msg_e (short_read (mkPeer true w)) allowed (e_vt_ok env) b s))).
+  { intros allowed b s. apply parked_or_report; [exact Hw|]. apply read_msg_e_parked_or. }
+  assert (Hc : parked_or (or_report (mkPeer false w) (conn_write (mkPeer false w)))
+                         (or_report (mkPeer true w) (conn_write (mkPeer true w)))).
+  { apply parked_or_report; [exact Hw|]. apply parked_or_refl. }
+  assert (Hi : forall (c : bool) e, parked_or (or_report (mkPeer false w) (if c then Ok tt else Err e))
+                                              (or_report (mkPeer true w) (if c then Ok tt else Err e))).
+  { intros c e. apply parked_or_report; [exact Hw|]. apply parked_or_refl. }
+  unfold hs_inner.
+  destruct (which =? 0); [|destruct (which =? 1); [|destruct (which =? 2)]].
+  - unfold incoming_handshake_p.
+    apply parked_or_bind; [apply Hr|]. intros [[m1 buf1] rest1].
+    apply parked_or_bind; [apply parked_or_refl|]. intros _.
+    apply parked_or_bind; [apply Hi|]. intros _.
+    apply parked_or_bind; [apply Hc|]. intros _.
+    apply parked_or_bind; [apply Hr|]. intros [[m2 buf2] rest2].
+    apply parked_or_bind; [apply parked_or_refl|]. intros _.
+    cbv zeta. apply parked_or_if; [apply parked_or_refl|apply Hc].
+  - unfold outgoing_handshake_p.
+    apply parked_or_bind; [apply Hc|]. intros _.
+    apply parked_or_bind; [apply Hr|]. intros [[m1 buf1] rest1].
+    apply parked_or_if; [apply parked_or_refl|].
+    apply parked_or_bind; [apply parked_or_refl|]. intros _.
+    apply parked_or_bind; [apply Hi|]. intros _.
+    apply parked_or_bind; [apply Hc|]. intros _.
+    apply parked_or_bind; [apply Hr|]. intros [[m2 buf2] rest2].
+    apply parked_or_bind; [apply parked_or_refl|]. intros _.
+    apply parked_or_refl.
+  - unfold incoming_proto_handshake_p.
+    apply parked_or_bind; [apply Hr|]. intros [[m1 buf1] rest1].
+    apply parked_or_bind; [apply parked_or_refl|]. intros _.
+    cbv zeta. apply parked_or_bind; [apply Hi|]. intros _. apply Hc.
+  - unfold outgoing_proto_handshake_p.
+    apply parked_or_bind; [apply Hc|]. intros _.
+    apply parked_or_bind; [apply Hr|]. intros [[m1 buf1] rest1].
+    apply parked_or_refl.
+Qed.
+
+Theorem hs_entry_stall_or_eof : forall which k env w buf stream,
+  hs_entry which k env (mkPeer false w) buf stream = Returned (Err E_deadline) \/
+  hs_entry which k env (mkPeer false w) buf stream = hs_entry which k env (mkPeer true w) buf stream.
+Proof.
+  intros which k env w buf stream. unfold hs_entry.
+  destruct (hs_inner_stall_or_eof which env w buf stream) as [H|H].
+  - left. rewrite H. reflexivity.
+  - right. rewrite H. reflexivity.
+Qed.
+
+(* a truncated frame header followed by silence: every entry point answers with the ctx error (unless its own
+   first write already failed) — on every kind of connection *)
+Lemma read_msg_e_short_header : forall short allowed vt buf stream,
+  blen stream < header_size -> read_msg_e short allowed vt buf stream = Err short.
+Proof.
+  intros short allowed vt buf stream H. unfold read_msg_e. rewrite reslice_grow_ok. cbn [bind].
+  destruct (N.ltb_spec (blen stream) header_size); [reflexivity|lia].
+Qed.
+
+Theorem hs_entry_truncated_header_deadline : forall which k env w buf stream,
+  w <> WFail -> blen stream < header_size ->
+  hs_entry which k env (stalled w) buf stream = Returned (Err E_deadline).
+Proof.
+  intros which k env w buf stream Hw Hs.
+  apply (proj1 (hs_entry_result which k env (stalled w) buf stream)).
+  unfold hs_inner, incoming_handshake_p, outgoing_handshake_p, incoming_proto_handshake_p,
+    outgoing_proto_handshake_p, stalled, short_read, conn_write. cbn [p_eof p_write].
+  rewrite !read_msg_e_short_header by exact Hs.
+  destruct (which =? 0); [|destruct (which =? 1); [|destruct (which =? 2)]];
+    destruct w; try contradiction; reflexivity.
+Qed.
+
+(* the alternative design (conversation inline, context.AfterFunc(ctx, conn.Close) as the only interruption) is
+   the same on connections whose Close interrupts a pending Read, and hangs on the others *)
+Theorem inline_close_on_done_same_when_close_interrupts : forall inner,
+  entry_inline_close_on_done KCloseInterrupts inner = entry_with_ctx KCloseInterrupts inner.
+Proof. reflexivity. Qed.
+
+Theorem inline_close_on_done_refuted : exists which env stream,
+  class_of_run (entry_inline_close_on_done KCloseSendOnly (hs_inner which env (stalled WOk) pool_buf stream)) = CHang.
+Proof.
+  exists 0, (mkEnv (fun _ _ => true) true (fun _ => true) (fun _ => true) true), [1].
+  vm_compute. reflexivity.
+Qed.
+
+(* the model satisfies the specification of a stall experiment: one call per stall point, any points *)
+Theorem hs_entry_meets_spec_stall : forall which k env w buf stream (points : list N),
+  spec_C11_stall (map (fun n => class_of_run (hs_entry which k env (stalled w) buf (stall_at n stream))) points) = true.
+Proof.
+  intros which k env w buf stream points. unfold spec_C11_stall. apply forallb_forall.
+  intros c Hc. apply in_map_iff in Hc. destruct Hc as [n [Hn _]]. subst c. apply hs_entry_returns.
 Qed.
